@@ -22,7 +22,7 @@ for sid in ids:
         t0 = time.time()
         p = subprocess.run(["./check", prop, "--tier", "quick", "--child-evidence", "/tmp/pyvc_refactor_evidence.json"], cwd=HERE, stdout=subprocess.PIPE, stderr=subprocess.STDOUT, text=True)
         lines = p.stdout.strip().splitlines()
-        keep = [l[:400] for l in lines if l.startswith(("VIOLATION", "UNDECIDED", "failed obligations", "CHECKER"))]
+        keep = [l[:400] for l in lines if l.startswith(("VIOLATION", "UNDECIDED", "DEGRADED", "failed obligations", "CHECKER"))]
         verdict = {0: "QUIET", 1: "FALSE-ALARM", 2: "UNDECIDED", 3: "CHECKER-FAILURE"}.get(p.returncode, "rc%d" % p.returncode)
         results[sid] = {"property": prop, "exit": p.returncode, "verdict": verdict, "lines": keep[:8], "seconds": round(time.time() - t0, 1)}
         print(sid, verdict, keep[:3])
